@@ -20,7 +20,7 @@ def ctxCount (x : Nat) : Ctx → Nat
 
 theorem count_fill (x : Nat) (f : Frame) (e : Ex) :
     (f.fill e).tags.count x = e.tags.count x + f.tags.count x := by
-  cases f <;> simp [Frame.fill, Frame.tags, Ex.tags, List.count_append, List.count_cons] <;> omega
+  cases f <;> (simp [Frame.fill, Frame.tags, Ex.tags, List.count_append, List.count_cons]; try omega)
 
 theorem count_plug (x : Nat) (k : Ctx) (e : Ex) :
     (plug k e).tags.count x = e.tags.count x + ctxCount x k := by
@@ -39,7 +39,7 @@ def ctxVars : Ctx → List Char
 
 theorem mem_vars_fill (c : Char) (f : Frame) (e : Ex) :
     c ∈ (f.fill e).vars ↔ c ∈ e.vars ∨ c ∈ f.vars := by
-  cases f <;> simp [Frame.fill, Frame.vars, Ex.vars] <;> tauto
+  cases f <;> (simp [Frame.fill, Frame.vars, Ex.vars]; try tauto)
 
 theorem mem_vars_plug (c : Char) (k : Ctx) (e : Ex) :
     c ∈ (plug k e).vars ↔ c ∈ e.vars ∨ c ∈ ctxVars k := by
@@ -56,7 +56,7 @@ theorem count_clone {x : Nat} (hx : x ≠ 0) (e : Ex) : e.clone.tags.count x = 0
   | var t v => simp [Ex.clone, Ex.tags, hx0]
   | un t o c ih => simp [Ex.clone, Ex.tags, hx0, ih]
   | bin t o l r ihl ihr =>
-    simp [Ex.clone, Ex.tags, List.count_cons, List.count_append, hx0, ihl, ihr]
+    simp [Ex.clone, Ex.tags, List.count_append, hx0, ihl, ihr]
 
 @[simp] theorem vars_clone (e : Ex) : e.clone.vars = e.vars := by
   induction e with
@@ -177,7 +177,7 @@ theorem makeTerm_tags {q : Rat} {v : Option Char} {e : Option Rat} {m : Ex}
   unfold makeTerm at h
   repeat' (split at h)
   all_goals (first | (simp at h; done) | skip)
-  all_goals (simp at h; subst h; simp [Ex.tags, List.count_cons, List.count_append, hx0])
+  all_goals (simp at h; subst h; simp [Ex.tags, hx0])
 
 /-! ### Wrapping a rebuilt core into the kept children -/
 
@@ -235,7 +235,7 @@ theorem dfCore_struct {lt rt : TermEx} {core : Ex} (h : dfCore lt rt = some core
   obtain ⟨-, -, hcase⟩ := factorAddTermsEx_spec hf
   refine ⟨fun x hx => ?_, fun ch => ?_⟩
   · have hx0 : (0 : Nat) ≠ x := hx.symm
-    simp [Ex.tags, List.count_append, List.count_cons, makeTerm_tags ha hx, makeTerm_tags hb hx,
+    simp [Ex.tags, List.count_append, makeTerm_tags ha hx, makeTerm_tags hb hx,
       makeTerm_tags hc hx, hx0]
   · simp only [Ex.vars, List.mem_append, makeTerm_vars ha, makeTerm_vars hb, makeTerm_vars hc]
     rcases hcase with ⟨h1, -, h3, -, h5, -, h7, -⟩ | ⟨h1, -, h3, -, h5, -⟩
@@ -478,12 +478,12 @@ theorem bmApply_struct {k k' : Ctx} {n n' : Ex} (h : bmApply k n = .ok (k', n'))
       obtain ⟨rfl, rfl⟩ := h
       refine ⟨rfl, fun x hx => ?_, fun c => ?_⟩
       · tags_close hx
-      · simp [Frame.fill, Ex.vars, removeAddend_vars hrem n c] <;> tauto
+      · simp [Frame.fill, Ex.vars, removeAddend_vars hrem n c] ; tauto
     | binR rt ro l =>
       simp at h
       obtain ⟨rfl, rfl⟩ := h
       refine ⟨rfl, fun x hx => ?_, fun c => ?_⟩
       · tags_close hx
-      · simp [Frame.fill, Ex.vars, removeAddend_vars hrem n c] <;> tauto
+      · simp [Frame.fill, Ex.vars, removeAddend_vars hrem n c]
 
 end Mathy
